@@ -1058,7 +1058,10 @@ func c01RunCase(co *caseOut, in c01Input, gen func(c *c05Chain, run *c05Runner) 
 	for i, rp := range in.Replicas {
 		dv, err := res[i].dv, res[i].err
 		if err != nil {
-			return fmt.Errorf("replica %+v: %w", rp, err)
+			// a replica that cannot be opened, panics or errors while the source node went through the same blocks
+			// has diverged from it
+			dv = &c01Divergence{Height: -1, Fields: []string{"error"}, Error: err.Error(),
+				Signature: "fields=error;" + strings.SplitN(err.Error(), "\n", 2)[0]}
 		}
 		stats["replicas"]++
 		stats["heights"] += len(blocks)
